@@ -14,6 +14,7 @@ macro_rules! props {
 
 props! {
     "c01" c01,
+    "c02" c02,
     "c04" c04,
     "c05" c05,
     "c08" c08,
